@@ -111,8 +111,12 @@ func c06Incr(t *testing.T, c c06Case) (string, string) {
 	// every SET carries its source database in the value, so that the decision for (db, key) is
 	// observable in the target's command log even when target.db folds all databases into one
 	sent := map[string]int{}
+	// the master replicates a command name the way the client spelled it
+	spell := []string{"set", "SET", "Set", "sEt", "SeT", "seT"}
+	nset := 0
 	set := func(db int, k string) {
-		cmd("set", k, fmt.Sprintf("v%d", db))
+		nset++
+		cmd(spell[nset%len(spell)], k, fmt.Sprintf("v%d", db))
 		sent[fmt.Sprintf("%d/%s", db, k)]++
 	}
 	for _, db := range kit06.DBs {
